@@ -69,6 +69,19 @@ StepsOK(e, i, preverr, k) ==
        /\ DLe(e.lim_codes[1], s.out) /\ DLe(s.out, e.lim_codes[2])                \* output within the configured limits
        /\ StepsOK(e, i + 1, err, k)
 
+RECURSIVE NeuroOK(_, _, _, _, _)
+NeuroOK(e, i, uprev, eprev, xpprev) ==
+  IF i > Len(e.steps) THEN TRUE
+  ELSE LET s == e.steps[i]
+           err == RSub(RDy(s.set), RDy(s.fdb))  xp == RSub(err, eprev)  xd == RSub(xp, xpprev)
+           wp == RDy(e.w[1])  wi == RDy(e.w[2])  wd == RDy(e.w[3])
+           norm == RAdd(RAbs(wp), RAdd(RAbs(wi), RAbs(wd)))
+           inc == RDiv(RMul(RDy(e.k), RAdd(RMul(wp, xp), RAdd(RMul(wi, err), RMul(wd, xd)))), norm)
+           u == RMax(RQ(e.lim[1]), RMin(RQ(e.lim[2]), RAdd(uprev, inc))) IN
+       /\ s.out[2] >= 0 /\ REq(RDy(s.out), u)
+       /\ s.w = e.w
+       /\ NeuroOK(e, i + 1, u, err, xp)
+
 Accept(e) ==
   CASE e.f = "mf" ->
          LET want == Mf(e.kind, RNorm(e.xi, 4), Qp(e.p)) IN
@@ -105,6 +118,10 @@ Accept(e) ==
          /\ \A i \in 1..Len(e.outs) : Fin(e.outs[i]) /\ DLe(e.lim_codes[1], e.outs[i]) /\ DLe(e.outs[i], e.lim_codes[2])
          /\ \A i \in 1..Len(e.weights) : \A j \in 1..3 : Fin(e.weights[i][j])
          /\ e.outs_after_zero = e.outs_fresh
+    \* single-neuron controller, learning rates zero: the documented output equation, exactly
+    \*   u(k) = clamp(u(k-1) + K (wp xp + wi xi + wd xd) / (|wp| + |wi| + |wd|)),
+    \*   xi = e(k), xp = e(k) - e(k-1), xd = e(k) - 2 e(k-1) + e(k-2); the weights do not move
+    [] e.f = "npidx" -> NeuroOK(e, 1, Zero, Zero, Zero)
     [] OTHER -> FALSE
 
 TraceInit == l = 1
